@@ -76,6 +76,19 @@ static hwloc_topology_t reload(const char *buf, int len, const char *path, hwloc
   return t2;
 }
 
+/* a normal object without any PU and without any NUMA node below it: the core removes such objects at the end of every discovery
+ * (remove_empty), so a reload can never give them back. hwloc_topology_restrict() by nodeset can leave some behind (CPU-less objects that
+ * only inherit memory from an ancestor); recorded as an open finding of the round trip */
+static int has_empty_normal_object(hwloc_topology_t t)
+{
+  int td = hwloc_topology_get_depth(t);
+  for (int d = 1; d < td; d++) for (hwloc_obj_t o = NULL; (o = hwloc_get_next_obj_by_depth(t, d, o)) != NULL; ) {
+    if (!hwloc_bitmap_iszero(o->cpuset)) continue;
+    int mem = 0; for (hwloc_obj_t n = NULL; !mem && (n = hwloc_get_next_obj_by_type(t, HWLOC_OBJ_NUMANODE, n)) != NULL; ) for (hwloc_obj_t a = n->parent; a; a = a->parent) if (a == o) { mem = 1; break; }
+    if (!mem) return 1; }
+  return 0;
+}
+
 /* two cpuset initiators of one (attribute, target) intersect: the importer re-adds the values one by one and a value whose cpuset is included
  * in an earlier one replaces it (the statement of C14 only covers pairwise disjoint initiators; recorded as an open finding for the round trip) */
 static int overlapping_initiators(hwloc_topology_t t)
@@ -194,7 +207,8 @@ void hv_case(uint64_t index)
       if (!canon_diff(&a2, &b2)) what = "memory_child_complete_cpuset";
       hv_str_free(&a2); hv_str_free(&b2);
     }
-    char key[96]; snprintf(key, sizeof key, "roundtrip.differs.%s%s", what, !strcmp(what, "memattrs") && overlapping_initiators(t) ? ".overlapping_initiators" : "");
+    char key[128]; snprintf(key, sizeof key, "roundtrip.differs.%s%s", what, !strcmp(what, "memattrs") && overlapping_initiators(t) ? ".overlapping_initiators" : "");
+    if (has_empty_normal_object(t)) { snprintf(key, sizeof key, "roundtrip.differs.empty_objects_left_by_restrict"); hv_stat("roundtrip.sources_with_empty_objects", 1); }
     hv_viol(key, "reloaded topology differs: %s", df);
   }
   hv_stat("roundtrip.v3_compared", 1);
